@@ -203,7 +203,7 @@ func startSuiteChild(c *ev.Ctx, check, suite string, cfg xcfgSpec) (*xstream, er
 func xcompare(c *ev.Ctx, r *ev.Report, prop, suite string, cfgs []xcfgSpec, keyOf func(id, a, b string) string) {
 	dir := filepath.Join(ev.Root, ".build", "run")
 	os.MkdirAll(dir, 0o755)
-	const maxRegen = 40000
+	const maxRegen = 1000000 // (the thorough decode suite meets ~5*10^4 cases of the recorded optdec findings per shard)
 	st := make([]*xstream, len(cfgs))
 	errs := make([]error, len(cfgs))
 	for i := range cfgs {
@@ -325,7 +325,7 @@ func xcompare(c *ev.Ctx, r *ev.Report, prop, suite string, cfgs []xcfgSpec, keyO
 		if mismOf[i] > maxRegen {
 			r.Notes = append(r.Notes, fmt.Sprintf("suite %s vs %s: %d mismatching cases, only the first %d were regenerated and classified", suite, cfgs[i].name, mismOf[i], maxRegen))
 			r.Violate(ev.Violation{Property: prop, Key: cfgs[i].name + ":more-mismatches-than-can-be-classified:" + suite, What: "too many mismatching cases to classify all of them",
-				Case: ev.J(map[string]string{"suite": suite, "cfg": cfgs[i].name}), Expected: "<= 40000 mismatches per shard", Observed: fmt.Sprint(mismOf[i])})
+				Case: ev.J(map[string]string{"suite": suite, "cfg": cfgs[i].name}), Expected: fmt.Sprintf("<= %d mismatches per shard", maxRegen), Observed: fmt.Sprint(mismOf[i])})
 		}
 		A, B, e1, e2 := regens[i].A, regens[i].B, regens[i].e1, regens[i].e2
 		if e1 != nil || e2 != nil || len(A) != len(idx) || len(B) != len(idx) {
